@@ -34,17 +34,17 @@ compared for every amount of fuel.
 -/
 namespace MJ.Blocks
 
-abbrev SRes := Except Err (List String × List Frame)
+abbrev SRes := Except Err (List String × Vars)
 
 /-- the spec one nesting level further down -/
 structure SpecCbs where
   /-- definition `k` of block `n` (its frame already pushed): `D n k disc outer ae frames` -/
-  body : (Nat → List (List Item)) → Nat → Nat → Bool → Nat → AE → List Frame → SRes
+  body : (Nat → List (List Item)) → Nat → Nat → Bool → Nat → AE → Vars → SRes
   /-- a statement list inside the current definition (loop / macro bodies):
       `D cur disc ext outer ae items frames` -/
-  list : (Nat → List (List Item)) → Option (Nat × Nat) → Bool → Bool → Nat → AE → List Item → List Frame → SRes
+  list : (Nat → List (List Item)) → Option (Nat × Nat) → Bool → Bool → Nat → AE → List Item → Vars → SRes
   /-- the layout of the last template of `chain`, then its parents: `chain disc outer ae layout frames` -/
-  chain : List Nat → Bool → Nat → AE → List Item → List Frame → SRes
+  chain : List Nat → Bool → Nat → AE → List Item → Vars → SRes
 
 /-- the block table entry of template `i` for block `n` -/
 def blockOf (env : Env) (i n : Nat) : Option (List Item) :=
@@ -58,34 +58,34 @@ def defs (env : Env) (chain : List Nat) (n : Nat) : List (List Item) :=
 
 /-- a block reference: the most-derived definition -/
 def specBlock (cbs : SpecCbs) (D : Nat → List (List Item)) (disc : Bool) (outer : Nat) (ae : AE) (m : Nat)
-    (fs : List Frame) : SRes :=
+    (fs : Vars) : SRes :=
   match D m with
   | [] => .error [.unknownBlock]
   | b :: bs =>
     if (b :: bs).length == 1 && isRequired b then .error [.invalidOperation]
     else if pushFails outer fs then .error [.invalidOperation]
     else
-      match cbs.body D m 0 disc outer ae (fs ++ [[]]) with
+      match cbs.body D m 0 disc outer ae (fs.push [[]]) with
       | .error e => .error e
       | .ok (o, fs') => .ok (o, fs'.take fs.length)
 
 /-- `super()` inside definition `k` of block `n`: definition `k + 1` -/
 def specSuper (cbs : SpecCbs) (D : Nat → List (List Item)) (cur : Option (Nat × Nat)) (disc : Bool)
-    (outer : Nat) (ae : AE) (fs : List Frame) : SRes :=
+    (outer : Nat) (ae : AE) (fs : Vars) : SRes :=
   match cur with
   | none => .error [.invalidOperation]
   | some (n, k) =>
     if k + 1 < (D n).length then
       if pushFails outer fs then .error [.invalidOperation]
       else
-        match cbs.body D n (k + 1) disc outer ae (fs ++ [[]]) with
+        match cbs.body D n (k + 1) disc outer ae (fs.push [[]]) with
         | .error e => .error (.evalBlock :: e)
         | .ok (o, fs') => .ok (o, fs'.take fs.length)
     else .error [.invalidOperation]
 
 /-- include: the first existing template, as a chain of its own, on the includer's frames -/
 def specInclude (env : Env) (cbs : SpecCbs) (disc ign : Bool) (outer : Nat) :
-    List Nat → Bool → List Frame → SRes
+    List Nat → Bool → Vars → SRes
   | [], tried, fs => if tried && !ign then .error [.templateNotFound] else .ok ([], fs)
   | t :: rest, _, fs =>
     match env[t]? with
@@ -98,23 +98,26 @@ def specInclude (env : Env) (cbs : SpecCbs) (disc ign : Bool) (outer : Nat) :
       | none =>
       if outer + INCLUDE_COST + fs.length > LIMIT then .error [.invalidOperation]
       else
-        match cbs.chain [t] disc (outer + INCLUDE_COST) T.ae T.layout fs with
+        -- the included file runs in the includer's frame, but with the frame's closure detached:
+        -- what it assigns does not reach the includer's macros, and its own macros get a closure
+        -- of their own; afterwards the includer's closure is attached again
+        match cbs.chain [t] disc (outer + INCLUDE_COST) T.ae T.layout (fs.setTopClosure none) with
         | .error e => .error (.badInclude :: e)
-        | .ok (o, fs') => .ok (o, fs'.take fs.length)
+        | .ok (o, fs') => .ok (o, (fs'.take fs.length).setTopClosure fs.topClosure)
 
-def specLoop (run : List Frame → SRes) (v : Nat) (vals : List String) (fl : Nat) (fs : List Frame) : SRes :=
+def specLoop (run : Vars → SRes) (v : Nat) (vals : List String) (fl : Nat) (fs : Vars) : SRes :=
   vals.foldl (fun (acc : SRes) val =>
     match acc with
     | .error e => .error e
     | .ok (o, s) =>
-      match run (s.take fl ++ [[(v, .str val)]]) with
+      match run ((s.take fl).push [[(v, Val.str val)]]) with
       | .error e => .error e
       | .ok (o', s') => .ok (o ++ o', s')) (.ok ([], fs))
 
 /-- a statement list.  `disc`: the output is discarding; `ext`: an `extends` of the enclosing
     template has been executed; `cur`: the block definition being rendered -/
 def specItems (env : Env) (rootCtx : Cfg) (cbs : SpecCbs) (D : Nat → List (List Item))
-    (cur : Option (Nat × Nat)) (disc ext : Bool) (outer : Nat) (ae : AE) : List Item → List Frame → SRes
+    (cur : Option (Nat × Nat)) (disc ext : Bool) (outer : Nat) (ae : AE) : List Item → Vars → SRes
   | [], fs => .ok ([], fs)
   | it :: rest, fs =>
     let cont (r : SRes) : SRes :=
@@ -146,14 +149,14 @@ def specItems (env : Env) (rootCtx : Cfg) (cbs : SpecCbs) (D : Nat → List (Lis
     | .importAs t v =>
       if pushFails outer fs then .error [.invalidOperation]
       else
-        match specInclude env cbs false false outer [t] false (fs ++ [[]]) with
+        match specInclude env cbs false false outer [t] false (fs.push [[]]) with
         | .error e => .error e
         | .ok (_, fs') =>
           cont (.ok ([], store (fs'.take fs.length) v (.module (dedupKeys (topFrame fs')))))
     | .fromImport t name alias =>
       if pushFails outer fs then .error [.invalidOperation]
       else
-        match specInclude env cbs true false outer [t] false (fs ++ [[]]) with
+        match specInclude env cbs true false outer [t] false (fs.push [[]]) with
         | .error e => .error e
         | .ok (_, fs') =>
           cont (.ok ([], store (fs'.take fs.length) alias ((lookupVal name (topFrame fs')).getD .undef)))
@@ -161,7 +164,7 @@ def specItems (env : Env) (rootCtx : Cfg) (cbs : SpecCbs) (D : Nat → List (Lis
       if body.any isExtends then .error [.unsupported]
       else if pushFails outer fs then .error [.invalidOperation]
       else
-        match specLoop (cbs.list D cur disc ext outer ae body) v vals fs.length (fs ++ [[]]) with
+        match specLoop (cbs.list D cur disc ext outer ae body) v vals fs.length (fs.push [[]]) with
         | .error e => .error e
         | .ok (o, s) => cont (.ok (o, s.take fs.length))
     | .inMacro m arg val body =>
@@ -171,7 +174,7 @@ def specItems (env : Env) (rootCtx : Cfg) (cbs : SpecCbs) (D : Nat → List (Lis
         let outer' := outer + fs1.length + MACRO_COST
         if outer' + 2 > LIMIT then .error [.invalidOperation]
         else
-          match cbs.list D none false false outer' ae body [[], [(arg, .str val)]] with
+          match cbs.list D none false false outer' ae body (fs1.macroCtx arg (.str val)) with
           | .error e => .error e
           | .ok (o, _) => cont (.ok (if disc then [] else o, fs1))
     | .badTarget => .error [.invalidOperation]
@@ -200,7 +203,7 @@ def hasExecExtends : List Item → Bool
 
 /-- the layout of the last template of `chain` (most-derived first), then its parents -/
 def specChain (env : Env) (rootCtx : Cfg) (cbs : SpecCbs) (chain : List Nat) (disc : Bool)
-    (outer : Nat) (ae : AE) (layout : List Item) (fs : List Frame) : SRes :=
+    (outer : Nat) (ae : AE) (layout : List Item) (fs : Vars) : SRes :=
   let D := defs env chain
   match splitExtends layout with
   | none => specItems env rootCtx cbs D none disc false outer ae layout fs
@@ -246,7 +249,7 @@ def specRender (env : Env) (rootCtx : Cfg) (fuel : Nat) (main : Nat) : Except Er
     match T.loadErr with
     | some k => .error [loadErrKind main k]
     | none =>
-    match (specAll env rootCtx fuel).chain [main] false 0 T.ae T.layout [[]] with
+    match (specAll env rootCtx fuel).chain [main] false 0 T.ae T.layout Vars.init with
     | .error e => .error e
     | .ok (o, _) => .ok o
 
